@@ -137,8 +137,43 @@ func pathOf(v ssa.Value) (root ssa.Value, path string, ok bool) {
 		// address used as a value (e.g. pointer receiver of a nested struct)
 		r, p := addrPath(x)
 		return r, p + "&", true
+	case *ssa.Call:
+		// a getter method `func (x *T) F() U { return x.f }` reads the field
+		if f, ok := getterField(x); ok {
+			r, p, _ := pathOf(x.Call.Args[0])
+			return r, p + "." + fieldName(x.Call.Args[0].Type(), f), true
+		}
 	}
 	return v, "", false
+}
+
+// getterField: the call is to a single-block method that returns a field of its receiver.
+func getterField(c *ssa.Call) (int, bool) {
+	sc := c.Call.StaticCallee()
+	if sc == nil || sc.Signature.Recv() == nil || len(sc.Blocks) != 1 || len(sc.Params) != 1 || len(c.Call.Args) != 1 {
+		return 0, false
+	}
+	ins := sc.Blocks[0].Instrs
+	ret, ok := ins[len(ins)-1].(*ssa.Return)
+	if !ok || len(ret.Results) != 1 {
+		return 0, false
+	}
+	ld, ok := ret.Results[0].(*ssa.UnOp)
+	if !ok || ld.Op != token.MUL {
+		return 0, false
+	}
+	fa, ok := ld.X.(*ssa.FieldAddr)
+	if !ok || fa.X != ssa.Value(sc.Params[0]) {
+		return 0, false
+	}
+	for _, in := range ins {
+		switch in.(type) {
+		case *ssa.FieldAddr, *ssa.UnOp, *ssa.Return, *ssa.DebugRef:
+		default:
+			return 0, false
+		}
+	}
+	return fa.Field, true
 }
 
 // addrPath: the access path denoted by a field address; nested struct fields
@@ -603,6 +638,13 @@ func (a *Arith) axioms(form Lin, seen map[string]bool) []Ineq {
 				}
 			}
 		case *ssa.Call:
+			if sc := x.Call.StaticCallee(); sc != nil && a.m.InModule(sc) && a.fn != sc {
+				if pk, ok := a.m.indexSummary(sc); ok && pk < len(x.Call.Args) {
+					// returns -1 or a valid index of its pk-th argument
+					out = append(out, Ineq{linAtom(k).scale(-1), 1})
+					out = append(out, mkIneq(linAtom(k).add(a.lenLin(x.Call.Args[pk], 0), -1), -1))
+				}
+			}
 			if sc := x.Call.StaticCallee(); sc != nil && sc.Pkg != nil {
 				full := sc.Pkg.Pkg.Path() + "." + sc.Name()
 				switch full {
@@ -998,6 +1040,12 @@ func pathFields(v ssa.Value) []fieldID {
 			out = append(out, fieldID{derefTypeString(x.X.Type()), x.Field})
 			v = x.X
 			continue
+		case *ssa.Call:
+			if f, ok := getterField(x); ok {
+				out = append(out, fieldID{derefTypeString(x.Call.Args[0].Type()), f})
+				v = x.Call.Args[0]
+				continue
+			}
 		}
 		return out
 	}
@@ -1264,4 +1312,46 @@ func isRuneSlice(t types.Type) bool {
 	}
 	b, ok := sl.Elem().Underlying().(*types.Basic)
 	return ok && b.Kind() == types.Int32
+}
+
+// indexSummary: fn returns an int that is -1 or provably 0 <= r < len(param k) on every path; reports k.
+func (m *Model) indexSummary(fn *ssa.Function) (int, bool) {
+	if m.idxSum == nil {
+		m.idxSum = map[*ssa.Function]int{}
+	}
+	if k, ok := m.idxSum[fn]; ok {
+		return k, k >= 0
+	}
+	m.idxSum[fn] = -1
+	if fn.Blocks == nil || fn.Signature.Results().Len() != 1 || !isInteger(fn.Signature.Results().At(0).Type()) {
+		return 0, false
+	}
+	a := m.NewArith(fn)
+	for pk, p := range fn.Params {
+		if _, isSlice := p.Type().Underlying().(*types.Slice); !isSlice {
+			continue
+		}
+		okAll, n := true, 0
+		for _, b := range fn.Blocks {
+			ret, ok := b.Instrs[len(b.Instrs)-1].(*ssa.Return)
+			if !ok {
+				continue
+			}
+			v := ret.Results[0]
+			if c, isC := v.(*ssa.Const); isC && c.Value != nil && c.Int64() == -1 {
+				continue
+			}
+			n++
+			pt := pointOf(ret)
+			l := a.lin(v)
+			if !(a.ProveValLE(l.scale(-1), 0, pt) && a.ProveValLE(l.add(a.lenLin(p, 0), -1), -1, pt)) {
+				okAll = false
+			}
+		}
+		if okAll && n > 0 {
+			m.idxSum[fn] = pk
+			return pk, true
+		}
+	}
+	return 0, false
 }
